@@ -229,6 +229,8 @@ func StdData(r *rand.Rand) val.V {
 		{K: "st", V: val.Struct(val.KV{K: "A", V: val.Int("int", 3)}, val.KV{K: "S", V: str()}, val.KV{K: "priv", V: val.Int("int", 1)}, val.KV{K: "M", V: val.Map(val.KV{K: "k", V: num()})})},
 		{K: "pst", V: val.PStruct(val.KV{K: "A", V: val.Int("int", 4)}, val.KV{K: "S", V: str()})},
 		{K: "nilp", V: val.V{K: "nilptr"}}, {K: "nd", V: val.V{K: "nildec"}},
+		{K: "ra", V: val.V{K: "rowA", M: []val.KV{{K: "Qty", V: val.Int("int", 7)}, {K: "Price", V: val.Int("int", 3)}, {K: "Note", V: val.Str("n")}}}},
+		{K: "rb", V: val.V{K: "rowB", M: []val.KV{{K: "Qty", V: val.Int("int", 2)}, {K: "Price", V: val.Int("int", 50)}}}},
 		{K: "z.k", V: val.Int("int", 42)}, {K: "undefinedname.name", V: val.Str("flat")}, {K: "m.missing", V: val.Int("int", 7)}, {K: "nilp.k", V: val.Str("flat2")}, {K: "$v.k", V: val.Int("int", 9)},
 		{K: "t0", V: val.Time(int64(r.Intn(2e9)), 0, []string{"UTC", "Local", "Asia/Shanghai"}[r.Intn(3)])},
 		{K: "d0", V: val.Dec([]string{"1.50", "0", "-2.25", "1E+3", "0.1"}[r.Intn(5)])},
@@ -242,9 +244,9 @@ func StdData(r *rand.Rand) val.V {
 	return val.Map(kv...)
 }
 
-var stdNames = []string{"n0", "n1", "s0", "s1", "b0", "z", "m", "tm", "arr", "strs", "ms", "st", "pst", "nilp", "nd", "t0", "d0", "u0", "x0", "x1", "x2", "odd", "odd2", "undefinedname", "$v", "$w"}
+var stdNames = []string{"n0", "n1", "s0", "s1", "b0", "z", "m", "tm", "arr", "strs", "ms", "st", "pst", "nilp", "nd", "ra", "rb", "t0", "d0", "u0", "x0", "x1", "x2", "odd", "odd2", "undefinedname", "$v", "$w"}
 var stdFuncs = []string{"fid", "ferr", "fsum", "fcat", "fnums", "fstrs", "fctx", "fnoret", "fone", "fpanic", "fanys", "ftime", "fmap", "fnildec", "fnilptr", "undefinedfn", "n0", "s0", "m", "z"}
-var stdMembers = []string{"k", "name", "b", "f", "A", "S", "M", "priv", "Z", "missing"}
+var stdMembers = []string{"k", "name", "b", "f", "A", "S", "M", "priv", "Z", "missing", "Qty", "Price", "Note"}
 
 // safeBuiltins: every builtin except lpad/rpad (whose length argument is generated
 // structurally, bounded by 10^6 as the statement says).
